@@ -353,7 +353,7 @@ def run(tier, seed, R):
     R.rule = ("(a) rectangle/ellipse (rotated: %d angles at, within 1e-12..5e-4 of, and far from multiples of pi/2, incl. large turn counts; elongated shapes), circle, annulus, "
               "x/y range on jittered point grids vs independent geometric formulas, points closer than 1e-6*scale to the boundary excluded; (b) 5 polygons (open, closed, concave) vs "
               "even-odd ray casting, move_to (once/twice) and rotate_to equivariance; (c) per region kind: independence of array shape, memory order, strides and broadcast views, copy and "
-              "save/restore, move_to equivariance, to_polygon within discretisation error; (d) Projected3dROI.contains3d with 1.1e6 points (2 chunks) and 6 projection matrices "
+              "save/restore, independence of a copy from the original under move / rotate / vertex edits (both directions), move_to equivariance, to_polygon within discretisation error; (d) Projected3dROI.contains3d with 1.1e6 points (2 chunks) and 6 projection matrices "
               "(incl. w != 1 and perspective) vs explicit projection; (e) categorical regions. non-trivial = distinct (region, parameters, transformation) case" % len(ANGLES))
     R.exhaustive = False
     closed_form(R, rng, tier)
